@@ -621,6 +621,24 @@ func (c *Conn) Discard(timeout time.Duration) {
 	}
 }
 
+// ReadRaw consumes up to n bytes of what the client writes, unparsed, and returns how many it got before the
+// time-out or the end of the connection.
+func (c *Conn) ReadRaw(n int, timeout time.Duration) int {
+	got := len(c.rd.buf)
+	c.rd.buf = nil
+	buf := make([]byte, 32768)
+	_ = c.cur.SetReadDeadline(time.Now().Add(timeout))
+	for got < n {
+		k, err := c.cur.Read(buf[:min(len(buf), n-got)])
+		got += k
+		if err != nil {
+			break
+		}
+	}
+	c.Note(fmt.Sprintf("read %d raw bytes", got))
+	return got
+}
+
 // Drain reads and records events until EOF, error or the time-out.
 func (c *Conn) Drain(timeout time.Duration) {
 	deadline := time.Now().Add(timeout)
